@@ -109,7 +109,8 @@ def run(ctx):
             want = binom_exact(x, n, p)[alt]; r = guarded(utils.binomial_p, x, n, float(p), alt)
             det = {"call": "binomial_p", "x": x, "n": n, "p": str(p), "alternative": alt}; site = "binomial_p"
         ctx.case(("tail-rel", repr(det)), True); ctx.count("relative-precision-tails"); ctx.count("tiny-tail" if want < Fr(1, 10**9) else "ordinary-tail")
-        if r[0] != "ok" or not (abs(Fr(float(r[1])) - want) <= Fr(1, 10**8) * want + Fr(1, 10**290)):
+        fin = r[0] == "ok" and float(r[1]) == float(r[1]) and abs(float(r[1])) != float("inf")
+        if not fin or not (abs(Fr(float(r[1])) - want) <= Fr(1, 10**8) * want + Fr(1, 10**290)):
             det.update({"issue": "tail probability wrong in relative terms", "returned": r[1:], "expected": float(want)})
             ctx.violation("oracle", det, site=site)
     # ---- sequences of calls with identical arguments in every order of the alternatives: a value must not depend
